@@ -340,21 +340,48 @@ StepObs(h, h2, touched) ==
   \cup {c \in {"CacheSound"} : CacheModel = "tracked" /\ \E x \in Id \ BlockIds : ~ CacheOK(h2[x])}
 
 -----------------------------------------------------------------------------
+(* outcomes of the calls on a whole world W = [mols, sys, parts]: [mols, sys, parts, err, obs].
+   The actions below and the trace judge (Trace_MoleculeEdit) both go through these four operators.          *)
+World(h, s, p)        == [mols |-> h, sys |-> s, parts |-> p]
+Outcome(W, h2, s2, p2, e, o, touched) ==
+  [mols |-> h2, sys |-> s2, parts |-> p2, err |-> e, obs |-> o \cup StepObs(W.mols, h2, touched)]
+
+\* a call that changes the object in cell m in place (r: its effect on that molecule)
+OutInPlace(W, m, r) == Outcome(W, Propagate([W.mols EXCEPT ![m] = r.mol], W.parts, m), W.sys, W.parts, r.err, r.obs, {m})
+\* a call whose result is a new object, stored in cell d; `like`: the cell whose citation set it holds (0: its own)
+OutStore(W, d, M, like) ==
+  Outcome(W, [W.mols EXCEPT ![d] = M], W.sys,
+          IF like # 0 /\ CitShared THEN Join(W.parts, d, like) ELSE Detach(W.parts, d), "none", {}, {d})
+\* MergeAllMolecules: every later molecule of the system is merged into the first one, which is then the only one left;
+\* a refusal half-way leaves the list as it was (and the first molecule with what it had received so far)
+OutMergeAll(W) ==
+  LET r == FoldMerge(W.mols[W.sys[1]], W.mols, Tail(W.sys), {})
+  IN Outcome(W, Propagate([W.mols EXCEPT ![W.sys[1]] = r.mol], W.parts, W.sys[1]),
+             IF r.err = "none" THEN <<W.sys[1]>> ELSE W.sys, W.parts, r.err, r.obs, {W.sys[1]})
+\* MergeChains: the new Molecule object lands in the free cell d
+OutMergeChains(W, chains, d) ==
+  LET sel == Selected(W.mols, W.sys, chains)
+      r   == MergedChains(W.mols, W.sys, chains)
+  IN IF sel = <<>> \/ r.err # "none"
+     THEN Outcome(W, W.mols, W.sys, W.parts, r.err, r.obs, {})            \* nothing selected, or a refusal: system as before
+     ELSE Outcome(W, [W.mols EXCEPT ![d] = r.mol], SysAfterChains(W.sys, sel, d, FALSE), Detach(W.parts, d), "none", r.obs, {d})
+
+-----------------------------------------------------------------------------
 (* actions *)
-Step(name, h2, s2, p2, e, o, touched) ==
+\* the calls the action properties speak of; every other call leaves "-" in `last`
+Marked == {"Merge", "MergeAll", "MergeChains", "MergeChainsAll", "ToMol", "MakeEdges", "Copy", "GraphCopy", "Subgraph"}
+Now == World(mols, sys, parts)
+Step(name, c) ==
   /\ name \in Acts
   /\ steps < MaxDepth
-  /\ last' = name
-  /\ mols' = h2 /\ sys' = s2 /\ parts' = p2
-  /\ err' = e
-  /\ obs' = o \cup StepObs(mols, h2, touched)
+  /\ last' = IF name \in Marked THEN name ELSE "-"
+  /\ mols' = c.mols /\ sys' = c.sys /\ parts' = c.parts
+  /\ err' = c.err
+  /\ obs' = c.obs
   /\ steps' = steps + 1
 
-\* a call that changes the object in cell m in place
-Apply(name, m, r) == Step(name, Propagate([mols EXCEPT ![m] = r.mol], parts, m), sys, parts, r.err, r.obs, {m})
-\* a call whose result is a new object, stored in cell d; `like`: the cell whose citation set it holds (0: its own)
-Store(name, d, M, like) == Step(name, [mols EXCEPT ![d] = M], sys,
-                          IF like # 0 /\ CitShared THEN Join(parts, d, like) ELSE Detach(parts, d), "none", {}, {d})
+Apply(name, m, r) == Step(name, OutInPlace(Now, m, r))
+Store(name, d, M, like) == Step(name, OutStore(Now, d, M, like))
 
 KeysFor(m)  == IF IsB(m) THEN BKey ELSE Key
 AtomsFor(m) == IF IsB(m) THEN BAtomSeqs ELSE AtomSeqs
@@ -420,18 +447,12 @@ ToMol(b, d, o) ==
 \* MergeAllMolecules: every later molecule of the system is merged into the first one, which is then the only one left
 MergeAll ==
   /\ "MergeAll" \in Acts /\ sys # <<>>
-  /\ LET r == FoldMerge(mols[sys[1]], mols, Tail(sys), {})
-     IN Step("MergeAll", Propagate([mols EXCEPT ![sys[1]] = r.mol], parts, sys[1]), IF r.err = "none" THEN <<sys[1]>> ELSE sys,
-             parts, r.err, r.obs, {sys[1]})
+  /\ Step("MergeAll", OutMergeAll(Now))
 
 \* MergeChains(chains) / MergeChains(all_chains=True); the new Molecule object lands in the free cell d
 MergeChainsTo(name, chains, d) ==
   /\ d \notin RangeOf(sys) /\ ~ IsB(d)
-  /\ LET sel == Selected(mols, sys, chains)
-         r   == MergedChains(mols, sys, chains)
-     IN IF sel = <<>> \/ r.err # "none"
-        THEN Step(name, mols, sys, parts, r.err, r.obs, {})                 \* nothing selected, or a refusal: system as before
-        ELSE Step(name, [mols EXCEPT ![d] = r.mol], SysAfterChains(sys, sel, d, FALSE), Detach(parts, d), "none", r.obs, {d})
+  /\ Step(name, OutMergeChains(Now, chains, d))
 MergeChains(chains, d) == "MergeChains" \in Acts /\ MergeChainsTo("MergeChains", chains, d)
 MergeChainsAll(d)      == "MergeChainsAll" \in Acts /\ MergeChainsTo("MergeChainsAll", AllChains(mols, sys), d)
 
